@@ -886,4 +886,11 @@ pub mod verif_hooks {
     pub fn find_first_non_zero_bit_usize(v: usize, start: u8, end: u8) -> Option<u8> {
         super::find_first_non_zero_bit::<usize>(v, start, end)
     }
+    pub fn scan_non_zero_bits_in_metadata_word(
+        meta_addr: Address,
+        word: usize,
+        visit_bit: &mut impl FnMut(Address, BitOffset),
+    ) {
+        super::scan_non_zero_bits_in_metadata_word(meta_addr, word, visit_bit)
+    }
 }
